@@ -82,6 +82,12 @@ func c03Alphabet(tier string) []seqSym {
 		{Name: "EVAL EXPIRE", Args: []string{"EVAL", "return tile38.call('EXPIRE','k1','a',100)", "0"}, Model: [][]string{{"EXPIRE", "k1", "a", "100"}}},
 		{Name: "EVALNA DROP+RENAME", Args: []string{"EVALNA", "tile38.call('DROP','k2'); return tile38.pcall('RENAME','k1','k2')", "0"}, Model: [][]string{{"DROP", "k2"}, {"RENAME", "k1", "k2"}}},
 	}
+	// a JSON document with a deadline, and JSET / JDEL that leave its text unchanged
+	a = append(a,
+		sy("SET", "k1", "b", "EX", "100", "STRING", `{"x":1}`),
+		sy("JSET", "k1", "b", "x", "1"),
+		sy("JDEL", "k1", "b", "nosuch"),
+	)
 	// writes wrapped in TIMEOUT
 	a = append(a,
 		seqSym{Name: "TIMEOUT 10 SET k1 a", Args: []string{"TIMEOUT", "10", "SET", "k1", "a", "FIELD", "f", "3", "POINT", "4", "4"}, Model: [][]string{{"SET", "k1", "a", "FIELD", "f", "3", "POINT", "4", "4"}}},
